@@ -581,3 +581,194 @@ Proof.
     unfold phi_opt, phi_win_opt. rewrite phi_of_win by (auto; lia). reflexivity.
 Qed.
 End ContribSums.
+
+(* ------------------------------------------------------------------ index sets *)
+Lemma pos_eqb_spec (a b : pos) : pos_eqb a b = true <-> a = b.
+Proof.
+  destruct a as [[[n c] h] w], b as [[[n' c'] h'] w']. unfold pos_eqb.
+  rewrite !andb_true_iff, !Z.eqb_eq. split.
+  - intros (((-> & ->) & ->) & ->). reflexivity.
+  - intros E. inversion E. auto.
+Qed.
+
+Lemma NoDup_list_prod {X Y} (l : list X) (l' : list Y) : NoDup l -> NoDup l' -> NoDup (list_prod l l').
+Proof.
+  intros N1 N2. induction N1 as [|a l Hnotin N1 IH]; simpl. constructor.
+  apply NoDup_app'; auto.
+  - apply NoDup_map_inj; auto. intros x y E. now inversion E.
+  - intros [x y] Hin Hc. apply in_map_iff in Hin. destruct Hin as (y' & E & _). inversion E; subst.
+    apply in_prod_iff in Hc. destruct Hc. contradiction.
+Qed.
+
+Lemma NoDup_Ipos g : NoDup (Ipos g).
+Proof. unfold Ipos. repeat apply NoDup_list_prod; apply NoDup_zr. Qed.
+Lemma NoDup_Junf g : NoDup (Junf g).
+Proof. unfold Junf. repeat apply NoDup_list_prod; apply NoDup_zr. Qed.
+Lemma NoDup_J2d g : NoDup (J2d g).
+Proof. unfold J2d. repeat apply NoDup_list_prod; apply NoDup_zr. Qed.
+
+Lemma in_Ipos g n c h w : In (n, c, h, w) (Ipos g) <-> 0 <= n < gN g /\ 0 <= c < gC g /\ 0 <= h < gH g /\ 0 <= w < gW g.
+Proof. unfold Ipos. rewrite !in_prod_iff, !in_zr. tauto. Qed.
+Lemma in_J2d g r q : In (r, q) (J2d g) <-> 0 <= r < nR g /\ 0 <= q < gN g * nL g.
+Proof. unfold J2d. rewrite !in_prod_iff, !in_zr. tauto. Qed.
+
+(* what pad_lookup returns *)
+Lemma pad_lookup_At g q i : pad_lookup g q = At i -> In i (Ipos g).
+Proof.
+  destruct q as [[[n c] hp] wp]. unfold pad_lookup, is_real.
+  match goal with |- (if ?b then _ else _) = _ -> _ => destruct b eqn:G1; [|discriminate] end.
+  match goal with |- (if ?b then _ else _) = _ -> _ => destruct b eqn:G2; [|discriminate] end.
+  intros E. inversion E; subst. apply in_Ipos.
+  rewrite !andb_true_iff, !Z.leb_le, !Z.ltb_lt in G1, G2. lia.
+Qed.
+Lemma pad_lookup_cases g n c hp wp : 0 <= n < gN g -> 0 <= c < gC g -> 0 <= hp < Hp g -> 0 <= wp < Wp g ->
+  pad_lookup g (n, c, hp, wp) =
+  if is_real (gH g) (pH g) hp && is_real (gW g) (pW g) wp then At (n, c, hp - pH g, wp - pW g) else PadV.
+Proof. intros. unfold pad_lookup. guard_true. reflexivity. Qed.
+
+Lemma phi_opt_into g j i : phi_opt g j = Some i -> In i (Ipos g).
+Proof.
+  unfold phi_opt, phi. destruct (pad_lookup g (phi_pad g j)) eqn:E; try discriminate.
+  cbn [cell_opt]. intros E'. inversion E'; subst. eapply pad_lookup_At; eauto.
+Qed.
+Lemma phi2d_opt_into g j i : phi2d_opt g j = Some i -> In i (Ipos g).
+Proof. destruct j as [r q]. unfold phi2d_opt, phi2d. apply phi_opt_into. Qed.
+
+(* in range phi is total: a pixel or the pad value, never out of bounds, never unwritten *)
+Lemma phi_cases g n r l : valid g -> 0 <= n < gN g -> 0 <= r < nR g -> 0 <= l < nL g ->
+  phi g (n, r, l) =
+  let '(_, c, hp, wp) := phi_pad g (n, r, l) in
+  if is_real (gH g) (pH g) hp && is_real (gW g) (pW g) wp then At (n, c, hp - pH g, wp - pW g) else PadV.
+Proof.
+  intros Hv Hn Hr Hl. unfold phi, phi_pad.
+  destruct (phi_pad_range g r l Hv Hr Hl) as (Bh & Bw). pose proof (row_parts g r Hv Hr) as (Hc & _ & _).
+  now apply pad_lookup_cases.
+Qed.
+
+(* ------------------------------------------------------------------ main theorems *)
+Section Main.
+Context {A : Type} `{ScalarLaws A}.
+
+(* im2col(x) of any variant is the gather of phi (pad value pv at the None positions) *)
+Lemma im2col_apply_unf v g pv (x : pos -> A) n r l : valid g -> 0 <= n < gN g -> 0 <= r < nR g -> 0 <= l < nL g ->
+  im2col_apply (im2col_unf v g) pv x (n, r, l) = match phi_opt g (n, r, l) with Some p => x p | None => pv end.
+Proof.
+  intros Hv Hn Hr Hl. unfold im2col_apply. rewrite im2col_unf_closed by auto.
+  unfold phi_opt. rewrite phi_cases by auto. unfold phi_pad.
+  destruct (_ && _); reflexivity.
+Qed.
+Lemma im2col_apply_2d v g pv (x : pos -> A) r q : valid g -> 0 <= r < nR g -> 0 <= q < gN g * nL g ->
+  im2col_apply (im2col_2d v g) pv x (r, q) = match phi2d_opt g (r, q) with Some p => x p | None => pv end.
+Proof.
+  intros Hv Hr Hq. destruct (q_parts g q Hv Hq) as (Hn & Hl).
+  unfold im2col_apply. rewrite im2col_2d_closed by auto.
+  unfold phi2d_opt, phi2d. rewrite phi_cases by auto. unfold phi_pad.
+  destruct (_ && _); reflexivity.
+Qed.
+
+(* col2im(y) of any variant is the scatter of phi *)
+Lemma col2im_unf_scatter v g (y : Z * Z * Z -> A) i : valid g ->
+  col2im_apply (col2im_unf v g) y i = scatter pos (Z * Z * Z) pos_eqb (Junf g) (phi_opt g) y i.
+Proof.
+  intros Hv. unfold col2im_apply, scatter.
+  apply (contribs_unf_sum v g (fun j t => match t with Some i' => if pos_eqb i' i then y j else s0 | None => s0 end) Hv).
+Qed.
+Lemma col2im_2d_scatter v g (y : Z * Z -> A) i : valid g ->
+  col2im_apply (col2im_2d v g) y i = scatter pos (Z * Z) pos_eqb (J2d g) (phi2d_opt g) y i.
+Proof.
+  intros Hv. unfold col2im_apply, scatter.
+  rewrite (contribs_2d_sum v g (fun j t => match t with Some i' => if pos_eqb i' i then y j else s0 | None => s0 end) Hv).
+  rewrite J2d_sum by auto.
+  apply isum_ext; intros [[n r] l] Hin. apply in_Junf in Hin. destruct Hin as (Hn & Hr & Hl).
+  unfold phi2d_opt. rewrite phi2d_of_unf by auto. reflexivity.
+Qed.
+
+(* place_windows agrees with col2im on windows[wi,wj,n,c,a,b] = y[n, (c*kH+a)*kW+b, wi*lW+wj] *)
+Definition jwin g (w : Z * Z * Z * Z * Z * Z) : Z * Z * Z :=
+  let '(wi, wj, n, c, a, b) := w in (n, (c * kH g + a) * kW g + b, wi * lW g + wj).
+Lemma place_windows_scatter g (y : Z * Z * Z -> A) i : valid g ->
+  col2im_apply (pw_contribs g) (fun w => y (jwin g w)) i = scatter pos (Z * Z * Z) pos_eqb (Junf g) (phi_opt g) y i.
+Proof.
+  intros Hv. unfold col2im_apply, scatter.
+  rewrite (pw_sum g (fun w t => match t with Some i' => if pos_eqb i' i then y (jwin g w) else s0 | None => s0 end) Hv).
+  rewrite Junf_sum by auto.
+  apply isum_ext; intros [wi wj] Hij. apply in_P2 in Hij. destruct Hij as (Hi & Hj).
+  apply isum_ext; intros [[[n c] a] b] Hq. apply in_P4 in Hq. destruct Hq as (Hn & Hc & Ha & Hb).
+  unfold phi_opt, phi_win_opt. rewrite phi_of_win by (auto; lia). reflexivity.
+Qed.
+
+(* <im2col x, y> = <x, col2im y> *)
+Lemma adjoint_unf v v' g (x : pos -> A) (y : Z * Z * Z -> A) : valid g ->
+  dot (Junf g) y (im2col_apply (im2col_unf v g) s0 x) = dot (Ipos g) (col2im_apply (col2im_unf v' g) y) x.
+Proof.
+  intros Hv.
+  transitivity (dot (Junf g) y (gather pos (Z * Z * Z) (phi_opt g) x)).
+  { unfold dot. apply isum_ext; intros [[n r] l] Hin. apply in_Junf in Hin. destruct Hin as (Hn & Hr & Hl).
+    rewrite im2col_apply_unf by auto. reflexivity. }
+  rewrite (gather_scatter_adjoint pos (Z * Z * Z) pos_eqb pos_eqb_spec (Ipos g) (Junf g) (NoDup_Ipos g)).
+  - unfold dot. apply isum_ext; intros i _. now rewrite col2im_unf_scatter.
+  - intros j i _ E. eapply phi_opt_into; eauto.
+Qed.
+Lemma adjoint_2d v v' g (x : pos -> A) (y : Z * Z -> A) : valid g ->
+  dot (J2d g) y (im2col_apply (im2col_2d v g) s0 x) = dot (Ipos g) (col2im_apply (col2im_2d v' g) y) x.
+Proof.
+  intros Hv.
+  transitivity (dot (J2d g) y (gather pos (Z * Z) (phi2d_opt g) x)).
+  { unfold dot. apply isum_ext; intros [r q] Hin. apply in_J2d in Hin. destruct Hin as (Hr & Hq).
+    rewrite im2col_apply_2d by auto. reflexivity. }
+  rewrite (gather_scatter_adjoint pos (Z * Z) pos_eqb pos_eqb_spec (Ipos g) (J2d g) (NoDup_Ipos g)).
+  - unfold dot. apply isum_ext; intros i _. now rewrite col2im_2d_scatter.
+  - intros j i _ E. eapply phi2d_opt_into; eauto.
+Qed.
+
+(* fold(unfold x) i = x i * #{(window, kernel offset) reading i} *)
+Lemma isum_indicator_const {I} (l : list I) (P : I -> bool) (c : A) :
+  isum l (fun j => if P j then c else s0) = nsmul (length (filter P l)) c.
+Proof.
+  induction l as [|a l IH]; simpl. reflexivity.
+  unfold isum in *. simpl. rewrite IH. destruct (P a); simpl. reflexivity. apply sadd_0_l.
+Qed.
+
+Lemma fold_unfold_unf v v' g (x : pos -> A) i : valid g ->
+  col2im_apply (col2im_unf v' g) (im2col_apply (im2col_unf v g) s0 x) i = nsmul (cover g i) (x i).
+Proof.
+  intros Hv. rewrite col2im_unf_scatter by auto. unfold scatter, cover.
+  rewrite <- isum_indicator_const.
+  apply isum_ext; intros [[n r] l] Hin. apply in_Junf in Hin. destruct Hin as (Hn & Hr & Hl).
+  rewrite im2col_apply_unf by auto. unfold phi_opt.
+  destruct (phi g (n, r, l)) as [p| | |]; cbn [cell_opt cell_is]; auto.
+  destruct (pos_eqb p i) eqn:E; auto. apply pos_eqb_spec in E. now subst.
+Qed.
+Lemma fold_unfold_2d v v' g (x : pos -> A) i : valid g ->
+  col2im_apply (col2im_2d v' g) (im2col_apply (im2col_2d v g) s0 x) i = nsmul (cover g i) (x i).
+Proof.
+  intros Hv. rewrite col2im_2d_scatter by auto. unfold scatter, cover.
+  rewrite <- isum_indicator_const. rewrite J2d_sum by auto.
+  apply isum_ext; intros [[n r] l] Hin. apply in_Junf in Hin. destruct Hin as (Hn & Hr & Hl).
+  assert (Hq : 0 <= l * gN g + n < gN g * nL g) by (pose proof (mul_lt_bound l (gN g) n (nL g) Hl Hn); lia).
+  rewrite im2col_apply_2d by auto. unfold phi2d_opt. rewrite phi2d_of_unf by auto.
+  destruct (phi g (n, r, l)) as [p| | |]; cbn [cell_opt cell_is]; auto.
+  destruct (pos_eqb p i) eqn:E; auto. apply pos_eqb_spec in E. now subst.
+Qed.
+End Main.
+
+(* every argument entry is added exactly once, into the pixel phi names (what one-hot probing reads) *)
+Definition j3_eqb (a b : Z * Z * Z) : bool :=
+  let '(n, r, l) := a in let '(n', r', l') := b in (n =? n') && (r =? r') && (l =? l').
+Lemma j3_eqb_spec a b : j3_eqb a b = true <-> a = b.
+Proof.
+  destruct a as [[n r] l], b as [[n' r'] l']. unfold j3_eqb. rewrite !andb_true_iff, !Z.eqb_eq. split.
+  - intros ((-> & ->) & ->). reflexivity.
+  - intros E. inversion E. auto.
+Qed.
+Lemma col2im_one_hot v g j0 i : valid g -> In j0 (Junf g) ->
+  col2im_apply (col2im_unf v g) (fun j => if j3_eqb j0 j then 1 else 0) i =
+  match phi_opt g j0 with Some i' => if pos_eqb i' i then 1 else 0 | None => 0 end.
+Proof.
+  intros Hv Hin. rewrite col2im_unf_scatter by auto. unfold scatter.
+  rewrite <- (isum_pick j3_eqb j3_eqb_spec (Junf g) j0
+               (fun j => match phi_opt g j with Some i' => if pos_eqb i' i then 1 else 0 | None => 0 end)
+               (NoDup_Junf g) Hin).
+  apply isum_ext; intros j _. change s0 with 0.
+  destruct (phi_opt g j) as [i'|]; destruct (j3_eqb j0 j); auto. destruct (pos_eqb i' i); auto.
+Qed.
